@@ -158,6 +158,7 @@ package entry
 //@   ensures forall j int :: 0 <= j && j < len(cids) ==> exists i int :: 0 <= i && i < len(result) && result[i] == cids[j]
 //@   ensures forall i int :: 0 <= i && i < len(result) ==> exists j int :: 0 <= j && j < len(cids) && result[i] == cids[j]
 //@   ensures distinctCids(cids) ==> sameCids(result, cids)
+//@   assumes [equal-lists-have-the-same-abstract-sequence] distinctCids(cids) ==> cidsOf(result) == cidsOf(cids)
 //@   loop 0
 //@     invariant fresh(out) && off(out) == 0 && len(out) <= $k && fresh(foundCids)
 //@     invariant distinctCids(out)
@@ -174,8 +175,8 @@ package entry
 //@   ensures e.Clock == nil ==> result.Clock == nil
 //@   ensures e.Clock != nil ==> result.Clock != nil && fresh(result.Clock) && result.Clock.Time == e.Clock.Time && result.Clock.ID == e.Clock.ID
 //@   ensures distinctCids(result.Next) && distinctCids(result.Refs) && len(result.Next) <= len(e.Next) && len(result.Refs) <= len(e.Refs)
-//@   ensures distinctCids(e.Next) ==> sameCids(result.Next, e.Next)
-//@   ensures distinctCids(e.Refs) ==> sameCids(result.Refs, e.Refs)
+//@   ensures distinctCids(e.Next) ==> sameCids(result.Next, e.Next) && cidsOf(result.Next) == cidsOf(e.Next)
+//@   ensures distinctCids(e.Refs) ==> sameCids(result.Refs, e.Refs) && cidsOf(result.Refs) == cidsOf(e.Refs)
 //@   ensures forall j int :: 0 <= j && j < len(e.Next) ==> exists i int :: 0 <= i && i < len(result.Next) && result.Next[i] == e.Next[j]
 //@   ensures forall i int :: 0 <= i && i < len(result.Next) ==> exists j int :: 0 <= j && j < len(e.Next) && result.Next[i] == e.Next[j]
 //@   ensures forall i int :: 0 <= i && i < len(result.Refs) ==> exists j int :: 0 <= j && j < len(e.Refs) && result.Refs[i] == e.Refs[j]
@@ -216,7 +217,7 @@ package entry
 // ---- entry.go: creating and writing entries ----
 // linksStored(e): the blocks of every predecessor and reference of e are already in the block store (C17)
 //@ define linksStored(e iface.IPFSLogEntry) = (forall i int :: 0 <= i && i < len(e.Next) ==> stored[e.Next[i]]) && (forall i int :: 0 <= i && i < len(e.Refs) ==> stored[e.Refs[i]])
-//@ define sameEntryCore(a iface.IPFSLogEntry, b iface.IPFSLogEntry) = a.LogID == b.LogID && a.Payload == b.Payload && a.V == b.V && a.Key == b.Key && a.Sig == b.Sig && a.Identity == b.Identity && a.Hash == b.Hash && a.Clock.Time == b.Clock.Time && a.Clock.ID == b.Clock.ID && (distinctCids(b.Next) ==> sameCids(a.Next, b.Next)) && (distinctCids(b.Refs) ==> sameCids(a.Refs, b.Refs)) && len(a.Next) <= len(b.Next) && len(a.Refs) <= len(b.Refs) && (forall i int :: 0 <= i && i < len(a.Refs) ==> exists j int :: 0 <= j && j < len(b.Refs) && a.Refs[i] == b.Refs[j])
+//@ define sameEntryCore(a iface.IPFSLogEntry, b iface.IPFSLogEntry) = a.LogID == b.LogID && a.Payload == b.Payload && a.V == b.V && a.Key == b.Key && a.Sig == b.Sig && a.Identity == b.Identity && a.Hash == b.Hash && a.Clock.Time == b.Clock.Time && a.Clock.ID == b.Clock.ID && (distinctCids(b.Next) ==> sameCids(a.Next, b.Next) && cidsOf(a.Next) == cidsOf(b.Next)) && (distinctCids(b.Refs) ==> sameCids(a.Refs, b.Refs) && cidsOf(a.Refs) == cidsOf(b.Refs)) && len(a.Next) <= len(b.Next) && len(a.Refs) <= len(b.Refs) && (forall i int :: 0 <= i && i < len(a.Refs) ==> exists j int :: 0 <= j && j < len(b.Refs) && a.Refs[i] == b.Refs[j])
 //@ func Normalize
 //@   requires validEntry(e)
 //@   ensures result != nil && fresh(result) && result.Clock != nil && fresh(result.Clock)
@@ -229,7 +230,7 @@ package entry
 //@   requires e == nil || (validEntry(e) && (e.Identity == nil || e.Identity.Signatures != nil))
 //@   requires validAnyIO(io)
 //@   requires [links-are-stored-before-the-entry-is-written] e != nil ==> linksStored(e)
-//@   modifies stored, lastAdded, addCount
+//@   modifies stored, lastAdded, addCount, lastWrapped
 //@   ensures e == nil || ipfsInstance == nil ==> err != nil
 //@   ensures [written-entry-is-stored] err == nil ==> stored[result0]
 //@   ensures [store-only-grows] forall c cid :: old(stored[c]) ==> stored[c]
@@ -237,7 +238,7 @@ package entry
 //@ func CreateEntryWithIO
 //@   requires validAnyIO(io)
 //@   requires [links-are-stored-before-the-entry-is-written] data != nil && ref(data) != nil ==> linksStored(data)
-//@   modifies stored, lastAdded, addCount
+//@   modifies stored, lastAdded, addCount, lastWrapped
 //@   ensures [created-entry-is-stored] err == nil ==> stored[result0.Hash]
 //@   ensures [store-only-grows] forall c cid :: old(stored[c]) ==> stored[c]
 //@   requires data == nil || typeis(data, "*Entry")
